@@ -69,11 +69,11 @@ Definition findMSB (sg : bool) (w x : Z) : Z :=
   let y := fold_left (msb_step sg w) [(1, 8); (2, 8); (4, 8); (8, 16); (16, 32); (32, 64)] x in
   w - 1 - bitCount sg w (bnot sg w y).
 
-(* bitfieldExtract: (Value >> T(Offset)) & T(mask(UT(Bits))), UT the unsigned counterpart of T      bitfieldInsert: Mask = mask(T(Bits)) << Offset *)
+(* bitfieldExtract: (Value >> T(Offset)) & T(mask(UT(Bits))), UT the unsigned counterpart of T      bitfieldInsert: UT Mask = UT(mask(UT(Bits))) << Offset;  (UT(Base) & ~Mask) | ((UT(Insert) << Offset) & Mask) *)
 Definition bitfieldExtract (sg : bool) (w v off bits : Z) : Z := band sg w (shr v off) (norm sg w (mask_T false w bits)).
-Definition bitfieldInsert (sg : bool) (w base ins off bits : Z) : Z :=
-  let mk := shl sg w (mask_T sg w bits) off in
-  bor sg w (band sg w base (bnot sg w mk)) (band sg w (shl sg w ins off) mk).
+Definition bitfieldInsert (sg : bool) (w base ins off bits : Z) : Z :=   (* on the unsigned counterpart UT of T, converted back to T at the end *)
+  let mk := shl false w (mask_T false w bits) off in
+  norm sg w (bor false w (band false w (umod w base) (bnot false w mk)) (band false w (shl false w (umod w ins) off) mk)).
 
 (* 32-bit carry / borrow / extended multiplication *)
 Definition uaddCarry (x y : Z) : Z * Z := let v := x + y in (v mod 2 ^ 32, if 2 ^ 32 - 1 <? v then 1 else 0).          (* (result, carry) *)
